@@ -342,8 +342,19 @@ func (w *pedWorld) mutate(p *party, pkt pdkg.Packet) []pdkg.Packet {
 			w.info.ByzFired("deal-thrice")
 		}
 		if p.beh["deal-bad-signature"] && w.protocol {
+			// either garbage, or a signature that IS valid - for the same bundle under another session id
+			// (a bundle of an earlier run replayed with its session field rewritten; lesson of seed C10h)
+			replayed := t.Bool("byz.replay", 500)
 			for _, o := range out {
-				o.(*pdkg.DealBundle).Signature = t.Bytes("byz.val", 64)
+				db := o.(*pdkg.DealBundle)
+				if replayed {
+					real := db.SessionID
+					db.SessionID = t.OtherBytes("byz.val", w.nonce, 32)
+					w.sign(p, db)
+					db.SessionID = real
+				} else {
+					db.Signature = t.Bytes("byz.val", 64)
+				}
 			}
 			w.fatal[me] = "deal bundle with invalid signature"
 			w.info.ByzFired("deal-bad-signature")
